@@ -140,7 +140,7 @@ func (r *c05RoleMap) resolve() {
 		// successors: the set-map that the index step (the function calling content.Successors, or a helper
 		// below it) updates under key(node) for its own node parameter; predecessors: the other one
 		if len(setMaps) == 2 {
-			for _, f := range p.FuncsOfPkg("internal/graph") {
+			for _, f := range c05FuncsOfPkg(p, "internal/graph") {
 				if f.Parent() != nil || len(CallsTo(f, "~/content.Successors")) == 0 {
 					continue
 				}
@@ -253,7 +253,7 @@ func (r *c05RoleMap) resolve() {
 		}
 		// digestToPath: the sync.Map field of Store that is accessed with a digest.Digest key
 		cand := map[string]bool{}
-		for _, f := range p.FuncsOfPkg("content/file") {
+		for _, f := range c05FuncsOfPkg(p, "content/file") {
 			for _, call := range Calls(f, func(n string) bool { return strings.HasPrefix(n, "(*sync.Map).") }) {
 				a := call.Common().Args
 				if len(a) < 2 {
